@@ -380,6 +380,12 @@ class ManifestRecursiveLoader:
 
         if store_dev:
             self.manifest_device = st.st_dev
+        elif (self.manifest_device is not None
+                and st.st_dev != self.manifest_device):
+            # (a Manifest found on another filesystem, e.g. through
+            # a symlink, must not be adopted in one-filesystem mode)
+            raise ManifestCrossDevice(
+                os.path.join(self.root_directory, relpath))
         self.loaded_manifests[relpath] = m
         return m
 
